@@ -330,7 +330,7 @@ class Sched:
 
     # ------------------------------------------------------------- faults
     def kill_proc(self, proc: str) -> None:
-        for t in self.T.values():
+        for t in list(self.T.values()):
             if t.proc == proc:
                 t.killed = True
                 t.alive = False
@@ -352,7 +352,7 @@ class Sched:
                 import traceback
                 self.error = ('on_end', traceback.format_exc())
         self.aborting = True
-        for t in self.T.values():
+        for t in list(self.T.values()):
             t.sem.release()
         self.done.set()
 
@@ -364,10 +364,10 @@ class Sched:
                           + repr({n: (t.kind, t.label)
                                   for n, t in self.T.items() if t.alive}))
             self.aborting = True
-            for t in self.T.values():
+            for t in list(self.T.values()):
                 t.sem.release()
         me = threading.current_thread()
-        for t in self.T.values():
+        for t in list(self.T.values()):
             if t.th is not None and t.th is not me:
                 t.th.join(5)
                 if t.th.is_alive() and self.error is None:
